@@ -613,7 +613,9 @@ def slerp(q0, q1, s, shortest=False):
     if abs(theta) > 10 * _eps:
         s0 = math.sin((1 - s) * theta)
         s1 = math.sin(s * theta)
-        return ((q0 * s0) + (q1 * s1)) / math.sin(theta)
+        q = ((q0 * s0) + (q1 * s1)) / math.sin(theta)
+        # the quotient loses accuracy as theta approaches pi, keep the result a unit quaternion
+        return q / np.linalg.norm(q)
     else:
         # quaternions are identical
         return q0
